@@ -535,14 +535,94 @@ fn put_endpoint(o: &mut Out, label: &str, e: &Option<(Point, &[f32])>) {
 // ---------------------------------------------------------------------------------------------
 
 fn family_path(ctx: &mut Ctx) {
-    ctx.case("path", |rng: &mut Rng| {
+    path_case(ctx, "path", |rng: &mut Rng| {
         let n = if rng.chance(1, 3) { 0 } else { rng.range(1, 5) as usize };
         let plain = n == 0 && rng.chance(1, 2);
         let prog = gen_prog(rng, n, 4);
+        (plain, n, prog)
+    });
+}
+
+/// all well-nested programs of at most `max_ops` calls over the two points (0,0), (1,2)
+fn enumerate_programs(max_ops: usize) -> Vec<Vec<Op>> {
+    let pts: [P; 2] = [(0, 0), (1, 2)];
+    let mut edges: Vec<Op> = Vec::new();
+    for a in pts {
+        edges.push(Op::L(a, vec![]));
+        for b in pts {
+            edges.push(Op::Q(a, b, vec![]));
+            for c in pts {
+                edges.push(Op::C(a, b, c, vec![]));
+            }
+        }
+    }
+    // sub-paths by length
+    let mut subs: Vec<Vec<Vec<Op>>> = vec![Vec::new(); max_ops + 1];
+    fn rec(cur: &mut Vec<Op>, left: usize, edges: &[Op], out: &mut Vec<Vec<Vec<Op>>>) {
+        for close in [false, true] {
+            let mut s = cur.clone();
+            s.push(Op::E(close));
+            let l = s.len();
+            out[l].push(s);
+        }
+        if left > 0 {
+            for e in edges {
+                cur.push(e.clone());
+                rec(cur, left - 1, edges, out);
+                cur.pop();
+            }
+        }
+    }
+    for b in pts {
+        let mut cur = vec![Op::B(b, vec![])];
+        rec(&mut cur, max_ops - 2, &edges, &mut subs);
+    }
+    // programs = sequences of sub-paths with total length <= max_ops
+    let mut progs: Vec<Vec<Op>> = vec![Vec::new()];
+    let mut frontier: Vec<Vec<Op>> = vec![Vec::new()];
+    while !frontier.is_empty() {
+        let mut next = Vec::new();
+        for p in &frontier {
+            for l in 2..=max_ops.saturating_sub(p.len()) {
+                for s in &subs[l] {
+                    let mut q = p.clone();
+                    q.extend(s.iter().cloned());
+                    next.push(q);
+                }
+            }
+        }
+        progs.extend(next.iter().cloned());
+        frontier = next;
+    }
+    progs
+}
+
+/// give the endpoints of a program `n` attributes each, numbered consecutively
+fn with_numbered_attrs(prog: &[Op], n: usize) -> Vec<Op> {
+    let mut k = 0i32;
+    let mut at = || {
+        let v: Vec<i32> = (0..n).map(|j| k * 10 + j as i32 + 1).collect();
+        k += 1;
+        v
+    };
+    prog.iter()
+        .map(|o| match o {
+            Op::B(p, _) => Op::B(*p, at()),
+            Op::L(p, _) => Op::L(*p, at()),
+            Op::Q(c, p, _) => Op::Q(*c, *p, at()),
+            Op::C(c1, c2, p, _) => Op::C(*c1, *c2, *p, at()),
+            Op::E(c) => Op::E(*c),
+        })
+        .collect()
+}
+
+fn path_case<G: FnOnce(&mut Rng) -> (bool, usize, Vec<Op>)>(ctx: &mut Ctx, label: &'static str, g: G) {
+    ctx.case("path", |rng: &mut Rng| {
+        let (plain, n, prog) = g(rng);
         let mut args = Out::new();
         args.t(if plain { "plain" } else { "attr" }).u(n as u64);
         put_prog(&mut args, &prog);
-        let tag = format!("path {} n{} {}", if plain { "plain" } else { "attr" }, n, prog_tag(&prog));
+        let tag = format!("{} {} n{} {}", label, if plain { "plain" } else { "attr" }, n, prog_tag(&prog));
         (args, tag, move || {
             let mut o = Out::new();
             let mut orc = Oracle::new();
@@ -1044,6 +1124,16 @@ fn main() {
     }
     for _ in 0..500 * n {
         family_polygon(&mut ctx);
+    }
+    if ctx.thorough {
+        // bounded-exhaustive: every well-nested program of <= 5 calls over a 2-point alphabet,
+        // through the plain builder and with 1 and 2 attributes
+        for prog in enumerate_programs(5) {
+            for (plain, na) in [(true, 0usize), (false, 1), (false, 2)] {
+                let p = with_numbered_attrs(&prog, na);
+                path_case(&mut ctx, "path-exhaustive", move |_| (plain, na, p));
+            }
+        }
     }
     ctx.finish();
 }
